@@ -138,6 +138,24 @@ def run_cfg(func, env, start=None, max_steps=64):
                             raise Unknown("assignment to %s not interpretable" % tgt)
                     else:
                         raise Unknown("compound assignment to %s" % tgt)
+        sc = func.switch_cases(blk)
+        if sc is not None:
+            try:
+                v = ev(_leafify(strip(blk.term["switch"])), env)
+                target, dflt = None, None
+                for s_, vals in sc:
+                    if isinstance(vals, list):
+                        lo, hi = ev(vals[0], env), ev(vals[-1], env)
+                        if lo <= v <= hi:
+                            target = s_
+                    else:
+                        dflt = s_
+            except Unknown:
+                return ("open", bid)
+            bid = target if target is not None else dflt
+            if bid is None:
+                return ("open", blk.id)
+            continue
         br = func.branch(blk)
         if br:
             try:
